@@ -137,7 +137,8 @@ def r03_2_3(rep: Report) -> None:
     tree = rep.repo.tree(MP4)
     # --- trun ------------------------------------------------------------
     trun = need(find_class(tree, 'TrackFragmentRunBox'), 'TrackFragmentRunBox')
-    pe = need(find_func(trun, 'post_encode'), 'TrackFragmentRunBox.post_encode')
+    from ..normalise import propagate_attr_aliases as _paa, set_parents as _sp
+    pe = _sp(_paa(need(find_func(trun, 'post_encode'), 'TrackFragmentRunBox.post_encode')))
     c = f'{MP4}::TrackFragmentRunBox.post_encode'
     assigns = [n for n in ast.walk(pe) if isinstance(n, ast.Assign)
                and norm(n.targets[0]) == 'self.data_offset']
@@ -244,7 +245,8 @@ def r03_2_3(rep: Report) -> None:
                       trun_ok, 'no moof / no mdat / first sample already at the start of the mdat payload')
     # --- saio ------------------------------------------------------------
     saio = need(find_class(tree, 'SampleAuxiliaryInformationOffsetsBox'), 'saio box')
-    pe2 = need(find_func(saio, 'post_encode'), 'saio.post_encode')
+    from ..normalise import propagate_attr_aliases, set_parents
+    pe2 = set_parents(propagate_attr_aliases(need(find_func(saio, 'post_encode'), 'saio.post_encode')))
     c2 = f'{MP4}::SampleAuxiliaryInformationOffsetsBox.post_encode'
     ff = need(find_func(saio, 'find_first_cenc_sample'), 'find_first_cenc_sample')
     deps = _deps(ff, [n for n in ast.walk(ff) if isinstance(n, ast.Return) and n.value is not None
